@@ -420,6 +420,35 @@ PROPS['C19'] = dict(
 )
 
 
+def env_streams(tier):
+    n = {'quick': 128, 'extended': 640, 'thorough': 4000}[tier]
+    return [dict(name='cli-directories+environment', harness=['envrun', str(n), '{seed}', '{shard}', '{nshards}'], driver='envrun', timeout=3000), exec_stream(tier)]
+
+
+PROPS['C18'] = dict(
+    family='line', needs_scrut_bin=True, tags={'W': 'envrun', 'X': 'exec'},
+    theorems=['C18_cleanup', 'C18_work_directory_kept', 'C18_keep', 'C18_work_dirs_distinct', 'C18_namer_total', 'C18_namer_distinct',
+              'C18_documented_variables_set', 'C18_env_reaches_every_test', 'C18_scrut_test_afresh'],
+    streams=env_streams,
+    spec_kinds=['SPEC:C18'], corr_kinds=['DIFF:env-exec', 'DIFF:env-exit', 'DIFF:exec'],
+    case_format='W <hex root of the case>|<hex canonical bash>|<process;process: <flag d default|w --work-directory|k --keep-temporary-directories><abort - none|u unparsable main document|s unusable shell>:<doc,doc: <m|c><! = front-matter prepends an unparsable document><tests P pass O wrong output C wrong code S skip T timeout>/<hex sub-directory>/<hex file name>>>|'
+                '<per process: exit=<status>/<hex probe lines id|PWD|TESTDIR|TESTFILE|TMPDIR|TESTSHELL|LANG|LANGUAGE|LC_ALL|TZ|COLUMNS|CDPATH|GREP_OPTIONS|SCRUT_TEST|CRAMTMP>/<listing of the given work directory>>|<listing of TMPDIR afterwards>|<count>   X: see C05',
+    rule='1-3 scrut processes at the same time with one TMPDIR; each runs 1-3 documents (Markdown and Cram, often with identical file names in different directories) whose tests pass, fail on output, fail on exit code, skip or time out; '
+         '1 in 12 processes has an unparsable main document, 1 in 12 an unusable (non-executable) shell, 1 in 14 Markdown documents prepends an unparsable document (early return after the environment exists); flags: none / --work-directory / --keep-temporary-directories. '
+         'Every test appends cwd and the documented variables to a probe file outside TMPDIR and creates files and directories in its work directory and in $TMPDIR. Non-trivial: at least two documents; distinct by run description. '
+         'Second stream: the mock-runner stream of C05 (SCRUT_TEST=<file>:<line> in the configuration every test case is run with).',
+    manifest=dict(text='Machine-checked theorems (Coq) over a resource model of TestEnvironment (three modes), init_test_file, the executor state directory and Drop, following the per-document control flow of `scrut test` for every way a document can end: without options the file system after any run equals the one before; with --work-directory everything that was there stays and no temp.X remains inside; with --keep-temporary-directories nothing but the state directory is removed and every processed document leaves execution.X and temp.X; work directories of two documents never coincide; UniqueNamer terminates and returns pairwise distinct unused names (decimal printing proved injective); the documented variables are among those regenerated from build_env_vars, reach every test case through all configuration layers (C16) and SCRUT_TEST is set on top. '
+                       'Tied to /repo by end-to-end runs of the real binary: 1-3 concurrent processes, every outcome class incl. early aborts, all three flag settings; what each test case saw (cwd, TESTDIR, TESTFILE, TMPDIR, TESTSHELL, locale/terminal variables, SCRUT_TEST, CRAMTMP) and what is left in TMPDIR / the given directory is compared with the model. Partial: that Drop runs on every exit path, and the behaviour of concurrent processes, are runtime facts (RAII, tempfile crate, kernel) that only the runs exercise.',
+                  technique='Coq proof (resource-model invariants, pigeonhole termination of the namer, injectivity of decimal printing) + variable table regenerated from source + end-to-end differential runs of the real CLI (concurrent processes, TMPDIR listings, environment probes)',
+                  note='Partial: RAII clean-up, tempfile name freshness and concurrency are exercised by the runs, not proved; process aborts (SIGKILL of scrut itself) are outside the exit kinds the property lists.'),
+    exhaustive={'quick': False, 'thorough': False},
+    assumptions=['TempDir never returns an existing name (premise `pristine` / fresh indices of the model)',
+                 'variables a test case changes itself (export LANG=...) are carried by the shell state (C12), not reset: only unmodified variables are compared',
+                 'a timed-out child that keeps running after scrut exits is not observed'],
+)
+PROPS['C18']['streams'] = env_streams
+
+
 def run_one(prop, inp, ctx):
     """re-run one case through the implementation and the model; returns CASE lines"""
     cfg = PROPS[prop]
@@ -431,7 +460,7 @@ def run_one(prop, inp, ctx):
     if fam == 'line':
         # generic: the case line carries the implementation's result; re-evaluate the model/oracle on it
         tag = inp[:1]
-        drv = cfg.get('tags', {}).get(tag) or {'X': 'exec', 'R': 'cli', 'V': 'validate', 'E': 'config', 'A': 'config', 'D': 'config', 'P': 'config', 'S': 'escape', 'N': 'render'}.get(tag, cfg['streams']('quick')[0]['driver'])
+        drv = cfg.get('tags', {}).get(tag) or {'X': 'exec', 'R': 'cli', 'V': 'validate', 'E': 'config', 'A': 'config', 'D': 'config', 'P': 'config', 'S': 'escape', 'N': 'render', 'W': 'envrun'}.get(tag, cfg['streams']('quick')[0]['driver'])
         rc, out = ctx['sh']([ctx['SVD'], drv], inp=(inp + '\n').encode())
         return [l for l in out.split('\n') if l.startswith('CASE')], out
     return [], ''
